@@ -353,9 +353,11 @@ Fixpoint walk (c : c13_case) (pos : nat) (sizes : list N) (obs : list bobs) : N 
     match first_fatal c pos len with
     | Some j =>
         match bo_out o with
-        | BFatal cls =>
-            let same_cls := match ref_at c j with Some (BObs (BFatal cls') _ _) => cls =? cls' | _ => false end in
-            if same_cls && ((bo_digest o =? digest_after c pos) || (bo_digest o =? digest_after c j))
+        | BFatal _ =>
+            (* rejected, and nothing (or exactly the commands before the failing one: stale
+               fallback) was applied; the error class of a multi-command batch may be that of
+               another malformed command of the batch, so it is not compared *)
+            if ((bo_digest o =? digest_after c pos) || (bo_digest o =? digest_after c j))
                && match orest with [] => true | _ => false end
             then 0 else classify batch
         | BOk _ => classify batch
